@@ -58,8 +58,9 @@ CLAIMED = {
                 "exactly the serialised request and one NUL, on a connection made to the address the resolver returned for the request's interface (the text before the last dot; the "
                 "CONFIGURED resolver address for org.varlink.resolver); a reply is awaited only if the request is not oneway; while relaying, every byte read from the service is written "
                 "to the client in order and unchanged, and the relay of one request ends only at the service's end of file, after a reply without `continues`, or on upgrade; the "
-                "`unreachable!()` is unreachable. NOT claimed: the upgraded mode's two copy threads and shutdown order (cut; only copy() itself is verified), WatchClose (epoll), "
-                "handle_connect / --activate / --bridge targets, process exit status, and equality with talking to the service directly beyond the above.",
+                "`unreachable!()` is unreachable; proxy::handle_connect (bridge --connect / --activate / --bridge) cannot panic for a connection made by any of the three constructors, with or "
+                "without a child process. NOT claimed: the upgraded mode's and handle_connect's copy threads and shutdown order (cut; only copy() itself is verified), WatchClose (epoll), "
+                "process exit status, and equality with talking to the service directly beyond the above.",
         "note": NOTE_COMMON + "handle<R, W> is specialised to concrete stand-in reader/writer types (T8); the unsafe from_raw_fd BufReader construction, Connection, the resolver client, varlink_connect, "
                 "VarlinkStream (target / per-handle log / prophecy of incoming bytes), WatchClose and Call::reply_interface_not_found are stand-ins with assumed contracts; Box<dyn Error> "
                 "is a unit error type (T10); termination of the loops is not claimed; copy() assumes fewer than 2^64 bytes per stream (its u64 byte counter).",
